@@ -52,11 +52,19 @@ class Thread(threading.Thread):
         # This method should not raise exceptions.
         print(f'Exception in {threading.current_thread().name}: {repr(exc)}')
 
+    def start(self):
+        # Create the Future before the thread starts, so that `wait` and `as_completed`
+        # can be used as soon as `start` has returned; `run` may begin later than that.
+        self._future_ = concurrent.futures.Future()
+        super().start()
+
     def run(self):
         """
         This method represents the thread's activity.
         """
-        self._future_ = concurrent.futures.Future()
+        if self._future_ is None:
+            # `run` is called directly, not via `start`.
+            self._future_ = concurrent.futures.Future()
         try:
             if self._target is not None:
                 z = self._target(*self._args, **self._kwargs)
